@@ -270,6 +270,18 @@ enum IOp {
 
 const IOPS: [IOp; 9] = [IOp::Next, IOp::NextBack, IOp::Nth(0), IOp::Nth(1), IOp::Nth(2), IOp::Nth(9), IOp::NthBack(0), IOp::NthBack(1), IOp::NthBack(3)];
 
+/// skip counts at every width boundary: a count truncated to 8/16/32 bits aliases a small one
+fn huge_counts() -> Vec<usize> {
+    let mut v = vec![usize::MAX, usize::MAX - 1, usize::MAX / 2];
+    for bit in [8u32, 16, 31, 32, 33, 48, 63] {
+        for k in 0..4usize {
+            v.push((1usize << bit) + k);
+        }
+        v.push((1usize << bit) - 1);
+    }
+    v
+}
+
 fn de_iter_run<I, T>(c: &mut Collector, name: &str, mk: &dyn Fn() -> I, all: &[T], ops: &[IOp]) -> bool
 where
     I: DoubleEndedIterator<Item = T> + Clone,
@@ -459,6 +471,53 @@ pub fn run(c: &mut Collector, a: &Args) {
             c.add("corrupted-valid-moves", 2);
         }
     }
+    // structured move spellings of every length: square, separator, square (+ suffix)
+    {
+        let seps: [&[u8]; 16] = [b"", b"-", b"--", b"---", b"----------", b" ", b"- ", b" -", b"x", b":", b"=", b"\xe2\x80\x93", b"_", b"->", b"-\0", b"\0"];
+        let sufs: [&[u8]; 8] = [b"", b"q", b"Q", b"=Q", b" ", b"-", b"\n", b"+"];
+        let mut k = 0u64;
+        for from in 0..64u8 {
+            for to in 0..64u8 {
+                k += 1;
+                if k % a.nshards != a.shard || (a.small && k % 211 != 0) {
+                    continue;
+                }
+                let sep = seps[(k as usize / 7) % seps.len()];
+                let suf = sufs[(k as usize / 3) % sufs.len()];
+                for upper in [false, true] {
+                    let mut sfrom = pos(from).to_string().into_bytes();
+                    let mut sto = pos(to).to_string().into_bytes();
+                    if upper {
+                        sfrom.make_ascii_uppercase();
+                        sto.make_ascii_uppercase();
+                    }
+                    let mut v = sfrom.clone();
+                    v.extend_from_slice(sep);
+                    v.extend_from_slice(&sto);
+                    v.extend_from_slice(suf);
+                    check_bytes(c, &v);
+                    c.count("structured-move-spellings");
+                }
+            }
+        }
+        // every separator x suffix on a few fixed moves
+        if a.shard == 0 {
+            for sep in seps {
+                for suf in sufs {
+                    for (f, t) in [(12u8, 28u8), (0, 63), (52, 60)] {
+                        let mut v = pos(f).to_string().into_bytes();
+                        v.extend_from_slice(sep);
+                        v.extend_from_slice(pos(t).to_string().as_bytes());
+                        v.extend_from_slice(suf);
+                        check_bytes(c, &v);
+                        let mut w = b" ".to_vec();
+                        w.extend_from_slice(&v);
+                        check_bytes(c, &w);
+                    }
+                }
+            }
+        }
+    }
     // seeded strings of length 0..8
     for _ in 0..(if a.small { 200 } else { 200_000 / a.nshards.max(1) }) {
         let len = rng.below(9) as usize;
@@ -489,6 +548,34 @@ pub fn run(c: &mut Collector, a: &Args) {
             let rs: Vec<chess_bitboard::Pos> = (0..8).map(|k| pos(i * 8 + k)).collect();
             forward_iter(c, "File::iter", &move || f.iter(), &fs);
             forward_iter(c, "Rank::iter", &move || r.iter(), &rs);
+        }
+    }
+    // huge skip counts, from both ends, after 0..2 preceding steps
+    for n in huge_counts() {
+        for pre in [vec![], vec![IOp::Next], vec![IOp::NextBack], vec![IOp::Next, IOp::NextBack]] {
+            for last in [IOp::Nth(n), IOp::NthBack(n)] {
+                let mut ops = pre.clone();
+                ops.push(last);
+                ops.push(IOp::Next);
+                de_iter_run(c, "Color::all", &Color::all, &colors, &ops);
+                de_iter_run(c, "Side::all", &Side::all, &sides, &ops);
+                de_iter_run(c, "Piece::all", &Piece::all, &pieces, &ops);
+                de_iter_run(c, "File::all", &File::all, &files, &ops);
+                de_iter_run(c, "Rank::all", &Rank::all, &ranks, &ops);
+                c.add("huge-skip-count-sequences", 5);
+            }
+        }
+    }
+    if a.shard == 0 {
+        let squares: Vec<chess_bitboard::Pos> = (0..64).map(pos).collect();
+        for n in huge_counts() {
+            c.eval();
+            let mut it = chess_bitboard::Pos::all();
+            it.next();
+            if it.nth(n).is_some() || it.next().is_some() && false {
+                c.violation("iterator-differs-from-slice-iterator", "Pos::all", format!("Pos::all: nth({n}) returned an element"), obj().set("iterator", "Pos::all"));
+            }
+            let _ = &squares;
         }
     }
     // seeded longer sequences
